@@ -258,7 +258,7 @@ def _worker(args):
         if not results and len(samples) < 2 and tag.startswith("prog"):
             samples.append(rs)
         for clause, symptom, detail, observed in results:
-            coll.add(f"C02:{symptom}", f"decompile/recompile: {symptom} -- {detail}", rs, clause, {"detail": detail, "text": observed}, {"tag": tag})
+            coll.add(f"C02:{symptom}{K.seeded_suffix(tag)}", f"decompile/recompile: {symptom} -- {detail}", rs, clause, {"detail": detail, "text": observed}, {"tag": tag})
     return {"n": n, "hashes": hashes, "nontrivial": nontrivial, "viol": coll.by_sig, "counter": counter, "stats": stats, "samples": samples}
 
 
@@ -350,4 +350,5 @@ def replay(record: dict, ctx: Ctx) -> bool:
     rs = record["input"]["routine_set"]
     want = record["signature"]
     results, _ = check(rs)
-    return any(f"C02:{symptom}" == want for _c, symptom, _d, _o in results)
+    tag = record["input"].get("tag", "")
+    return any(f"C02:{symptom}{K.seeded_suffix(tag)}" == want for _c, symptom, _d, _o in results)
